@@ -134,6 +134,15 @@ class Sym:
     def __deepcopy__(self, memo):
         return self
 
+    def item(self):
+        return self
+
+    def tolist(self):
+        return self
+
+    def copy(self):
+        return self
+
     def __copy__(self):
         return self
 
